@@ -161,6 +161,8 @@ func main() {
 		rc = cmdShow(os.Args[2:])
 	case "check":
 		rc = cmdCheck(os.Args[2:])
+	case "sweep-replay":
+		rc = cmdSweepReplay(os.Args[2:])
 	case "claim":
 		if len(os.Args) > 2 && os.Args[2] == "C09" {
 			rc = cmdSweepClaim()
